@@ -68,7 +68,9 @@ class Engine(ExprMixin, CallMixin, StmtMixin):
         rel = self.cur_rel
         if rel not in self._modconst_cache:
             try:
-                self._modconst_cache[rel] = front.module_constants(rel)
+                d = dict(front.imported_constants(rel))
+                d.update(front.module_constants(rel))
+                self._modconst_cache[rel] = d
             except front.Missing:
                 self._modconst_cache[rel] = {}
         return self._modconst_cache[rel]
